@@ -143,13 +143,13 @@ PROPS = {
     },
     "C06": {
         "streams": ["addr", "resolve"],
-        "theorems": "C06_local_round_trip, C06_local_resolve_canonical (all strings / all pairs of local values); C06_registry_round_trip, C06_registry_package_round_trip (every well-formed registry package value and every valid sub-path without '?': parse (print v) = v; well-formedness is evaluated on every registry value the parsers return in a run); refutation witnesses for the five known mechanisms (KF-C06-1..5); PARTIAL: the corresponding theorems for final registry and remote values are not proved",
+        "theorems": "C06_local_round_trip, C06_local_resolve_canonical (all strings / all pairs of local values); C06_registry_round_trip, C06_registry_package_round_trip (every well-formed registry package value and every valid sub-path without '?': parse (print v) = v; well-formedness is evaluated on every registry value the parsers return in a run); C06_final_registry_round_trip (with C06_version_round_trip, C06_decimal_round_trip), C06_remote_round_trip (every remote value whose host, path and sub-path URL escaping leaves alone, via C06_parse_remote_structured and a model of net/url); refutation witnesses for the five known mechanisms (KF-C06-1..5), which are exactly the shapes outside the theorems' hypotheses",
         "assumptions": _ADDR_ASSUME + ["derived values (ResolveRelative*, Versioned, SourceAddr, FinalSourceAddr) are printed, re-parsed and compared on the implementation by the addr stream's oracle"],
     },
     "C07": {
         "streams": ["addr"],
-        "theorems": "C07_parse_remote_policy, C07_make_remote_source_policy, C07_parse_remote_package_policy, C07_parse_source_policy, C07_parse_final_source_policy (every accepted string / triple on every route satisfies the independent policy predicate), C07_query_normal_form (parse_query o encode_query = stable sort, all argument lists; escaping round trip by a sweep over all 256 byte values)",
-        "assumptions": _ADDR_ASSUME + ["partial: the converse direction (every address following the documented grammar is accepted) is decided per run on the implementation (grammar generator + must-accept oracle) and by correspondence; it is not yet a theorem"],
+        "theorems": "C07_git_grammar_accepted, C07_archive_by_suffix_accepted, C07_archive_by_argument_accepted (converse direction); C07_parse_remote_policy, C07_make_remote_source_policy, C07_parse_remote_package_policy, C07_parse_source_policy, C07_parse_final_source_policy (every accepted string / triple on every route satisfies the independent policy predicate), C07_query_normal_form (parse_query o encode_query = stable sort, all argument lists; escaping round trip by a sweep over all 256 byte values)",
+        "assumptions": _ADDR_ASSUME + ["the converse direction is proved for the three documented shapes with explicit parts (C07_git_grammar_accepted, C07_archive_by_suffix_accepted, C07_archive_by_argument_accepted, any letter case); the github.com / gitlab.com shorthands are covered by instances and by the per-run grammar generator with its must-accept oracle, not by a general theorem"],
     },
     "C18": {
         "streams": ["manifest"],
